@@ -17,7 +17,7 @@ package endpointf
 //@   requires st != nil && validR(readBuf)
 //@   let p0 = readBuf.buf.i
 //@   let allocbudget = 256 * len(readBuf.buf.src)
-//@   modifies *st, readBuf.buf.i, readBuf.depth
+//@   modifies *st, readBuf.rderr, readBuf.buf.i, readBuf.depth
 //@   allocates
 //@   ensures [C05] readBuf.buf.i >= p0
 //@   ensures [C05] validR(readBuf)
@@ -92,6 +92,21 @@ package endpointf
 //@   ensures [C04] (ok13 && err == nil) ==> st.AuthType == (k13 == 0 ? decIntV(src, q12, 13, d0) : old(st.AuthType))
 //@   ensures [C06] (ok12 && k13 == 2) ==> err != nil
 //@   ensures [C04] ok13 ==> (err == nil && readBuf.buf.i == q13)
+//@   site ResetDefault#0 ghost readBuf.rderr = false
+//@   site ).Read#0 ghostafter readBuf.rderr = readBuf.rderr || $ret != nil
+//@   site ).Read#1 ghostafter readBuf.rderr = readBuf.rderr || $ret != nil
+//@   site ).Read#2 ghostafter readBuf.rderr = readBuf.rderr || $ret != nil
+//@   site ).Read#3 ghostafter readBuf.rderr = readBuf.rderr || $ret != nil
+//@   site ).Read#4 ghostafter readBuf.rderr = readBuf.rderr || $ret != nil
+//@   site ).Read#5 ghostafter readBuf.rderr = readBuf.rderr || $ret != nil
+//@   site ).Read#6 ghostafter readBuf.rderr = readBuf.rderr || $ret != nil
+//@   site ).Read#7 ghostafter readBuf.rderr = readBuf.rderr || $ret != nil
+//@   site ).Read#8 ghostafter readBuf.rderr = readBuf.rderr || $ret != nil
+//@   site ).Read#9 ghostafter readBuf.rderr = readBuf.rderr || $ret != nil
+//@   site ).Read#10 ghostafter readBuf.rderr = readBuf.rderr || $ret != nil
+//@   site ).Read#11 ghostafter readBuf.rderr = readBuf.rderr || $ret != nil
+//@   site ).Read#12 ghostafter readBuf.rderr = readBuf.rderr || $ret != nil
+//@   ensures [C06] readBuf.rderr ==> err != nil
 //@   site ).Read#0 assert [C04] $2 == 0 && $3 == true
 //@   site ).Read#1 assert [C04] $2 == 1 && $3 == true
 //@   site ).Read#2 assert [C04] $2 == 2 && $3 == true
@@ -113,10 +128,11 @@ package endpointf
 //@   requires st != nil && validR(readBuf)
 //@   let p0 = readBuf.buf.i
 //@   let allocbudget = 256 * len(readBuf.buf.src)
-//@   modifies *st, readBuf.buf.i, readBuf.depth
+//@   modifies *st, readBuf.rderr, readBuf.buf.i, readBuf.depth
 //@   allocates
 //@   ensures [C05] readBuf.buf.i >= p0
 //@   ensures [C05] validR(readBuf)
+//@   ensures [C06] (readBuf.rderr && !old(readBuf.rderr)) ==> result != nil
 //@   safety [C05]
 //
 //@ func (*EndpointF).WriteTo
